@@ -28,10 +28,46 @@ func TestC10CFFOutlines(t *testing.T) {
 		if stats.Thorough() {
 			o.MaxGlyphs = 60
 		}
+		fullEncoding := kind == genfont.KindCFF && rapid.IntRange(0, 5).Draw(t, "fullEncoding") == 0
+		if fullEncoding {
+			o.MinGlyphs, o.MaxGlyphs = 257, 270
+		}
 		c := genfont.Gen(o).Draw(t, "font")
 		f := c.Font
 		old := f.Outlines.(*cff.Outlines)
 		list := genList(t, f.NumGlyphs())
+		if fullEncoding {
+			// every one of the 256 codes in use (code c selects glyph c+1), and
+			// a glyph list that keeps all encoded glyphs, cut into a drawn
+			// number of blocks that are shuffled: in the subset the codes form
+			// that many ranges
+			old.Encoding = make([]glyph.ID, 256)
+			for c := range old.Encoding {
+				old.Encoding[c] = glyph.ID(c + 1)
+			}
+			k := rapid.SampledFrom([]int{2, 5, 100, 127, 128, 129, 200, 254, 255, 256}).Draw(t, "nBlocks")
+			cuts := map[int]bool{}
+			for len(cuts) < k-1 {
+				cuts[rapid.IntRange(1, 255).Draw(t, "cut")] = true
+			}
+			var blocks [][]glyph.ID
+			start := 0
+			for i := 1; i <= 256; i++ {
+				if i == 256 || cuts[i] {
+					var b []glyph.ID
+					for g := start; g < i; g++ {
+						b = append(b, glyph.ID(g+1))
+					}
+					blocks = append(blocks, b)
+					start = i
+				}
+			}
+			blocks = rapid.Permutation(blocks).Draw(t, "blockOrder")
+			list = []glyph.ID{0}
+			for _, b := range blocks {
+				list = append(list, b...)
+			}
+		}
 		ctx := func() string { return fmt.Sprintf("list=%v\n%s", list, c) }
 
 		var before bytes.Buffer
@@ -122,7 +158,23 @@ func TestC10CFFOutlines(t *testing.T) {
 				t.Fatalf("[write] CID of glyph %d changed by Write+Read\n%s", i, ctx())
 			}
 		}
+		if sub.Encoding != nil && !sub.IsCIDKeyed() {
+			for code := range sub.Encoding {
+				var got glyph.ID
+				if o2.Encoding != nil {
+					got = o2.Encoding[code]
+				} else if std := cff.StandardEncoding(o2.Glyphs); std != nil {
+					got = std[code]
+				}
+				if got != sub.Encoding[code] {
+					t.Fatalf("[write] built-in encoding changed by Write+Read: code %d selects glyph %d, was %d\n%s", code, got, sub.Encoding[code], ctx())
+				}
+			}
+		}
 		labels := append([]string{}, c.Labels...)
+		if fullEncoding {
+			labels = append(labels, "all-256-codes-in-use")
+		}
 		if fdOrderChanged {
 			labels = append(labels, "fd-renumbered")
 		}
